@@ -1,7 +1,7 @@
 """C19 - a configuration is reflected faithfully or rejected, never silently altered."""
 import ast
 
-from ..astutil import make_cfg, call_name, fn_calls, kwarg, node_calls, header_exprs, must_pass, walk_no_nested
+from ..astutil import strip_doc, make_cfg, call_name, fn_calls, kwarg, node_calls, header_exprs, must_pass, walk_no_nested
 from ..loader import is_unknown
 
 META = {
@@ -357,8 +357,26 @@ def check(ctx):
     # Diameter.make_config passes the given config through unchanged
     d = ctx.need(repo.cls("bromelia.setup.Diameter"), "bromelia.setup.Diameter")
     mk = ctx.need(d.methods.get("make_config"), "Diameter.make_config")
-    rets = [ast.unparse(n.value) for n in ast.walk(mk) if isinstance(n, ast.Return) and n.value is not None]
-    ctx.decide("self.config_class(config)" in rets, "R-FLOW/make-config", f"{d.qual}.make_config", d.where(mk),
+    # on terms: with a (truthy) configuration given, the object handed to config_class is that configuration itself
+    from .. import sym as _sk
+    cp_ = [a_.arg for a_ in mk.args.args if a_.arg != "self"][0]
+    CFG_ = _sk.S(cp_)
+    rets, okmk = [], False
+    for p_ in _sk.Interp(hook=lambda t: True if t == CFG_ and False else None).run(strip_doc(mk.body), _sk.PathState({cp_: CFG_}, [], [])):
+        if p_.term != "return":
+            continue
+        given = [tv for c, tv in p_.conds if c == CFG_ or c == ("cmp", "Is", CFG_, None)]
+        rets.append(_sk.show(p_.value))
+        is_given = (given == [True] and not any(c == ("cmp", "Is", CFG_, None) for c, _ in p_.conds)) or \
+            (any(c == ("cmp", "Is", CFG_, None) and tv is False for c, tv in p_.conds))
+        if is_given or not given:
+            v = p_.value
+            if isinstance(v, tuple) and v[0] == "call" and v[1] == ("attr", ("name", "self"), "config_class") and v[2] == (CFG_,):
+                okmk = True
+            elif is_given:
+                okmk = False
+                break
+    ctx.decide(okmk, "R-FLOW/make-config", f"{d.qual}.make_config", d.where(mk),
                "a given config is wrapped unchanged", f"make_config returns {rets} for a given config", key="make_config",
                nontrivial=False)
 
